@@ -160,7 +160,7 @@ CHECKS["C01"] = {
     "level_text": "Thousands of generated programs per run (2-4 transactions, all client APIs, both transaction kinds, region layouts, batch sizes, leader moves, region errors, and gates that run another transaction's step while a prewrite/commit/lock RPC is parked) are executed on an in-process cluster with a virtual clock; afterwards all locks are expired and resolved and every recorded read, acknowledgement and commit interval is checked against the final MVCC records; the same rules are evaluated on histories in which a committing client is killed at a swept request position (generator of C02) and other clients recover. One class of violation of the insert clause is a listed known finding (replayed by TestKnownFindings, excluded and counted in the search). Interleavings are owned at RPC granularity, not at instruction granularity; absence of violations is not a proof.",
     "level_note": "Trusted: mocktikv (itself checked by C12) and TiDB's unistore as store implementations; the history checker (harness/sim/history.go); locks are expired by advancing the virtual TSO clock (mocktikv) or by skewing the clients' clock (unistore).",
     "tests": [
-        {"name": "TestHistories", "quick": 600, "thorough": 6000, "shards": 16, "timeout_q": 400},
+        {"name": "TestHistories", "quick": 2500, "thorough": 6000, "shards": 16, "timeout_q": 400},
         {"name": "TestHistoriesUni", "quick": 400, "thorough": 4000, "shards": 16, "timeout_q": 400},
         {"name": "TestKnownFindings", "quick": 1, "thorough": 1, "shards": 1},
         {"name": "TestCrashHistories", "quick": 80, "thorough": 400, "shards": 16, "timeout_q": 400},
